@@ -1372,7 +1372,42 @@ func c10R1(c *Ctx) {
 	}
 }
 
+// c10ListVerbatim (C10.R7): the permitted-endpoints list of a Token is the
+// token's claim, unmodified. Any rewriting (trimming, dropping blanks,
+// de-duplicating, lower-casing) can turn a non-empty restriction into the empty
+// list - which means "every endpoint" - or make a near-miss name match.
+func c10ListVerbatim(c *Ctx) {
+	p := c.P
+	endF := p.Field(authPkg, "Token", "Endpoints")
+	if endF == nil {
+		c.fail("C10.anchor", "Token.Endpoints", token.NoPos, "not found")
+		return
+	}
+	n := 0
+	for _, st := range p.storesToField(endF, false) {
+		n++
+		s2, ok := st.Instr.(*ssa.Store)
+		good := false
+		src := "?"
+		if ok {
+			src = path(s2.Val)
+			if u, isLoad := strip(s2.Val).(*ssa.UnOp); isLoad && u.Op == token.MUL {
+				if fa, isFA := u.X.(*ssa.FieldAddr); isFA {
+					fv, _ := fieldVarOf(fa)
+					good = fv.Name() == "Endpoints" && fv != endF
+				}
+			}
+		}
+		c.check(good, "C10.R7", fnName(st.Fn)+"/endpoints-list-verbatim", st.Instr.Pos(), "Token.Endpoints := the claim's endpoints field, as decoded",
+			"the token's endpoint list is computed ("+src+") rather than copied from the claim: a rewritten list can become empty (= unrestricted) or match other names")
+	}
+	if n == 0 {
+		c.fail("C10.R7", "stores", token.NoPos, "no store to Token.Endpoints found outside tests")
+	}
+}
+
 func c10R2(c *Ctx) {
+	c10ListVerbatim(c)
 	p := c.P
 	c.floor("C10.R2", 2)
 	fn := p.Func(authPkg, "Token.EndpointPermitted")
